@@ -30,10 +30,40 @@ func TmplGasGate() []byte {
 	return a.Bytes()
 }
 
+// TmplRepeat: calldata = target | value | count | argument. CALLs target count times with that value and the one-word
+// argument (a contract that self-destructs again and again while value keeps arriving, a token spent in slices, ...).
+func TmplRepeat() []byte {
+	a := NewAsm()
+	a.Push(96).Op(vm.CALLDATALOAD).Push(0).Op(vm.MSTORE)
+	a.Push(64).Op(vm.CALLDATALOAD) // i
+	a.Label("loop")
+	a.Op(vm.DUP1, vm.ISZERO).PushLabel("end").Op(vm.JUMPI)
+	a.Push(0).Push(0).Push(32).Push(0).Push(32).Op(vm.CALLDATALOAD).Push(0).Op(vm.CALLDATALOAD).Op(vm.GAS, vm.CALL, vm.POP)
+	a.Push(1).Op(vm.SWAP1, vm.SUB)
+	a.PushLabel("loop").Op(vm.JUMP)
+	a.Label("end").Op(vm.STOP)
+	return a.Bytes()
+}
+
+// TmplCallThenDie: calldata = target | die | inner call data. CALLs target with the inner data (value 0) and, when die != 0,
+// self-destructs to the caller afterwards: an owner of allowances / delegations that ceases to exist.
+func TmplCallThenDie() []byte {
+	a := NewAsm()
+	a.Push(64).Op(vm.CALLDATASIZE, vm.SUB)             // insize
+	a.Op(vm.DUP1).Push(64).Push(0).Op(vm.CALLDATACOPY) // insize
+	a.Push(0).Push(0).Op(vm.DUP3).Push(0).Push(0).Push(0).Op(vm.CALLDATALOAD).Op(vm.GAS, vm.CALL, vm.POP, vm.POP)
+	a.Push(32).Op(vm.CALLDATALOAD, vm.ISZERO).PushLabel("end").Op(vm.JUMPI)
+	a.Op(vm.CALLER, vm.SELFDESTRUCT)
+	a.Label("end").Op(vm.STOP)
+	return a.Bytes()
+}
+
 func init() {
 	templates["fwd"] = TmplFwd
 	templates["vw"] = TmplViewWit
 	templates["slotw"] = TmplSlotWriter
 	templates["gate"] = TmplGasGate
-	TemplateNames = append(TemplateNames, "fwd", "vw", "slotw", "gate")
+	templates["rep"] = TmplRepeat
+	templates["callsd"] = TmplCallThenDie
+	TemplateNames = append(TemplateNames, "fwd", "vw", "slotw", "gate", "rep", "callsd")
 }
